@@ -58,7 +58,7 @@ def cfg_args(c, **extra):
     d = dict(c)
     d.update(extra)
     a = ["ir=%r" % float(d["ir"]), "or=%r" % float(d["orr"])]
-    for k in ("recipe", "qflags", "prec", "phase", "pb", "sb", "rtflags", "scale", "itype", "otype", "ch", "ioflags", "plan", "block", "kb", "min", "large"):
+    for k in ("recipe", "qflags", "prec", "phase", "pb", "sb", "rtflags", "scale", "itype", "otype", "ch", "ioflags", "plan", "block", "kb", "min", "large", "split"):
         if k in d and d[k] is not None:
             a.append("%s=%s" % (k, d[k] if not isinstance(d[k], float) else repr(d[k])))
     return a
@@ -118,6 +118,10 @@ def run(c, x=None, **extra):
     info = parse_header(p.stdout[:i].decode().splitlines())
     ot = extra.get("otype", c.get("otype", 1))
     y = np.frombuffer(p.stdout[i + 4:], dtype=DTYPES[ot & 3])
+    if c.get("scale") not in (None, 1, 1.0) and (ot & 3) in (0, 1):
+        # a configuration that carries a gain (knob `gain`) is measured as the unit-gain system it must be a multiple of: whatever
+        # the gain does to the coefficients beyond multiplying the output shows as an error of every measurement
+        y = y.astype(np.float64) / float(c["scale"])
     return info, y
 
 
@@ -710,7 +714,7 @@ ANCHOR_RATIOS = [(1, 2), (2, 1), (1, 4), (4, 1), (3, 1), (1, 3), (3, 2), (2, 3),
 ANCHOR_RECIPES = [1, 2, 4, 4 | 0x40, 6]
 ANCHOR_SB_GT1 = [(2, 1), (4, 1), (4, 3), (5, 3), (8, 1)]
 ANCHOR_IRRATIONAL = [(3.14159, 1), (1, 3.14159), (1.7320508, 1), (1, 9.87), (6.99, 1)]
-KNOBS_SPECTRAL = ["base", "ph0", "ph25", "ph75", "ph100", "sb<1", "sb>1", "sb>1.1", "pb", "roll", "prec"]
+KNOBS_SPECTRAL = ["base", "ph0", "ph25", "ph75", "ph100", "sb<1", "sb>1", "sb>1.1", "pb", "roll", "prec", "gain"]
 _PHASE_BITS = {0: 0x30, 25: 0x10, 100: 0x20}
 
 
@@ -747,6 +751,8 @@ def apply_knob(rng, c, knob):
         c["qflags"] = (c.get("qflags", 0) & ~3) | rng.choice([r for r in (0, 1, 2) if r != cur])
     elif knob == "prec":
         c["prec"] = round(rng.uniform(15.0, 33.0), 2)
+    elif knob == "gain":
+        c["scale"] = rng.choice([0.5, 2.0, 0.37, 1.7, -1.0, 0.125])       # io_spec.scale: the stage that carries it folds it into its coefficients
     return c
 
 
